@@ -200,6 +200,9 @@ for mn in class_mods:
                 "own_init": sig_desc(init) if inspect.isfunction(init) else None,
                 "props": sorted(n for n, v in vars(val).items() if isinstance(v, property)),
                 "prop_setters": sorted(n for n, v in vars(val).items() if isinstance(v, property) and v.fset is not None),
+                # effective line framing of protocol classes (class attributes resolved through the MRO, read only)
+                "framing": ({a: repr(getattr(val, a, None)) for a in ("TERMINATOR", "ENCODING", "UNICODE_HANDLING")} if hasattr(val, "TERMINATOR") else None),
+                "defined_in": {m: next((fq(c) for c in val.__mro__ if m in vars(c)), None) for m in ("data_received", "handle_packet", "handle_line", "write_line", "connection_made", "connection_lost", "add_job", "run_job", "recv", "send")},
             }
 json.dump(out, sys.stdout)
 '''
